@@ -100,7 +100,8 @@ Inductive pc :=
   | Swap                      (* open.swap(false, SeqCst) *)
   | Drop1 | Drop2 | Drop3     (* drop_contents: load head, load tail, take the filled cells *)
   | Free                      (* dealloc *)
-  | Done.
+  | Done
+  | Rel.                      (* repaired close only: released.swap(true) - last one out frees *)
 
 Record st := mkSt {
   head : N;
@@ -110,6 +111,7 @@ Record st := mkSt {
   rw : waker;
   sw : waker;
   freed : bool;
+  released : bool;
   rnotif : bool;
   snotif : bool;
   rwakes : N;
@@ -142,45 +144,46 @@ Record st := mkSt {
   phc : N;
   ctc : N
 }.
-Definition set_head (v : N) (s : st) : st := mkSt v (tail s) (open s) (slots s) (rw s) (sw s) (freed s) (rnotif s) (snotif s) (rwakes s) (swakes s) (ppc s) (ph s) (pt s) (pprev s) (pitems s) (pcode s) (pout s) (pwas s) (pparked s) (cpc s) (ch s) (ct s) (cprev s) (cwant s) (ccode s) (cgot s) (cwas s) (cparked s) (pushed s) (received s) (discarded s) (bad s) (uaf s) (npub s) (hpub s) (phc s) (ctc s).
-Definition set_tail (v : N) (s : st) : st := mkSt (head s) v (open s) (slots s) (rw s) (sw s) (freed s) (rnotif s) (snotif s) (rwakes s) (swakes s) (ppc s) (ph s) (pt s) (pprev s) (pitems s) (pcode s) (pout s) (pwas s) (pparked s) (cpc s) (ch s) (ct s) (cprev s) (cwant s) (ccode s) (cgot s) (cwas s) (cparked s) (pushed s) (received s) (discarded s) (bad s) (uaf s) (npub s) (hpub s) (phc s) (ctc s).
-Definition set_open (v : bool) (s : st) : st := mkSt (head s) (tail s) v (slots s) (rw s) (sw s) (freed s) (rnotif s) (snotif s) (rwakes s) (swakes s) (ppc s) (ph s) (pt s) (pprev s) (pitems s) (pcode s) (pout s) (pwas s) (pparked s) (cpc s) (ch s) (ct s) (cprev s) (cwant s) (ccode s) (cgot s) (cwas s) (cparked s) (pushed s) (received s) (discarded s) (bad s) (uaf s) (npub s) (hpub s) (phc s) (ctc s).
-Definition set_slots (v : list (option N)) (s : st) : st := mkSt (head s) (tail s) (open s) v (rw s) (sw s) (freed s) (rnotif s) (snotif s) (rwakes s) (swakes s) (ppc s) (ph s) (pt s) (pprev s) (pitems s) (pcode s) (pout s) (pwas s) (pparked s) (cpc s) (ch s) (ct s) (cprev s) (cwant s) (ccode s) (cgot s) (cwas s) (cparked s) (pushed s) (received s) (discarded s) (bad s) (uaf s) (npub s) (hpub s) (phc s) (ctc s).
-Definition set_rw (v : waker) (s : st) : st := mkSt (head s) (tail s) (open s) (slots s) v (sw s) (freed s) (rnotif s) (snotif s) (rwakes s) (swakes s) (ppc s) (ph s) (pt s) (pprev s) (pitems s) (pcode s) (pout s) (pwas s) (pparked s) (cpc s) (ch s) (ct s) (cprev s) (cwant s) (ccode s) (cgot s) (cwas s) (cparked s) (pushed s) (received s) (discarded s) (bad s) (uaf s) (npub s) (hpub s) (phc s) (ctc s).
-Definition set_sw (v : waker) (s : st) : st := mkSt (head s) (tail s) (open s) (slots s) (rw s) v (freed s) (rnotif s) (snotif s) (rwakes s) (swakes s) (ppc s) (ph s) (pt s) (pprev s) (pitems s) (pcode s) (pout s) (pwas s) (pparked s) (cpc s) (ch s) (ct s) (cprev s) (cwant s) (ccode s) (cgot s) (cwas s) (cparked s) (pushed s) (received s) (discarded s) (bad s) (uaf s) (npub s) (hpub s) (phc s) (ctc s).
-Definition set_freed (v : bool) (s : st) : st := mkSt (head s) (tail s) (open s) (slots s) (rw s) (sw s) v (rnotif s) (snotif s) (rwakes s) (swakes s) (ppc s) (ph s) (pt s) (pprev s) (pitems s) (pcode s) (pout s) (pwas s) (pparked s) (cpc s) (ch s) (ct s) (cprev s) (cwant s) (ccode s) (cgot s) (cwas s) (cparked s) (pushed s) (received s) (discarded s) (bad s) (uaf s) (npub s) (hpub s) (phc s) (ctc s).
-Definition set_rnotif (v : bool) (s : st) : st := mkSt (head s) (tail s) (open s) (slots s) (rw s) (sw s) (freed s) v (snotif s) (rwakes s) (swakes s) (ppc s) (ph s) (pt s) (pprev s) (pitems s) (pcode s) (pout s) (pwas s) (pparked s) (cpc s) (ch s) (ct s) (cprev s) (cwant s) (ccode s) (cgot s) (cwas s) (cparked s) (pushed s) (received s) (discarded s) (bad s) (uaf s) (npub s) (hpub s) (phc s) (ctc s).
-Definition set_snotif (v : bool) (s : st) : st := mkSt (head s) (tail s) (open s) (slots s) (rw s) (sw s) (freed s) (rnotif s) v (rwakes s) (swakes s) (ppc s) (ph s) (pt s) (pprev s) (pitems s) (pcode s) (pout s) (pwas s) (pparked s) (cpc s) (ch s) (ct s) (cprev s) (cwant s) (ccode s) (cgot s) (cwas s) (cparked s) (pushed s) (received s) (discarded s) (bad s) (uaf s) (npub s) (hpub s) (phc s) (ctc s).
-Definition set_rwakes (v : N) (s : st) : st := mkSt (head s) (tail s) (open s) (slots s) (rw s) (sw s) (freed s) (rnotif s) (snotif s) v (swakes s) (ppc s) (ph s) (pt s) (pprev s) (pitems s) (pcode s) (pout s) (pwas s) (pparked s) (cpc s) (ch s) (ct s) (cprev s) (cwant s) (ccode s) (cgot s) (cwas s) (cparked s) (pushed s) (received s) (discarded s) (bad s) (uaf s) (npub s) (hpub s) (phc s) (ctc s).
-Definition set_swakes (v : N) (s : st) : st := mkSt (head s) (tail s) (open s) (slots s) (rw s) (sw s) (freed s) (rnotif s) (snotif s) (rwakes s) v (ppc s) (ph s) (pt s) (pprev s) (pitems s) (pcode s) (pout s) (pwas s) (pparked s) (cpc s) (ch s) (ct s) (cprev s) (cwant s) (ccode s) (cgot s) (cwas s) (cparked s) (pushed s) (received s) (discarded s) (bad s) (uaf s) (npub s) (hpub s) (phc s) (ctc s).
-Definition set_ppc (v : pc) (s : st) : st := mkSt (head s) (tail s) (open s) (slots s) (rw s) (sw s) (freed s) (rnotif s) (snotif s) (rwakes s) (swakes s) v (ph s) (pt s) (pprev s) (pitems s) (pcode s) (pout s) (pwas s) (pparked s) (cpc s) (ch s) (ct s) (cprev s) (cwant s) (ccode s) (cgot s) (cwas s) (cparked s) (pushed s) (received s) (discarded s) (bad s) (uaf s) (npub s) (hpub s) (phc s) (ctc s).
-Definition set_ph (v : N) (s : st) : st := mkSt (head s) (tail s) (open s) (slots s) (rw s) (sw s) (freed s) (rnotif s) (snotif s) (rwakes s) (swakes s) (ppc s) v (pt s) (pprev s) (pitems s) (pcode s) (pout s) (pwas s) (pparked s) (cpc s) (ch s) (ct s) (cprev s) (cwant s) (ccode s) (cgot s) (cwas s) (cparked s) (pushed s) (received s) (discarded s) (bad s) (uaf s) (npub s) (hpub s) (phc s) (ctc s).
-Definition set_pt (v : N) (s : st) : st := mkSt (head s) (tail s) (open s) (slots s) (rw s) (sw s) (freed s) (rnotif s) (snotif s) (rwakes s) (swakes s) (ppc s) (ph s) v (pprev s) (pitems s) (pcode s) (pout s) (pwas s) (pparked s) (cpc s) (ch s) (ct s) (cprev s) (cwant s) (ccode s) (cgot s) (cwas s) (cparked s) (pushed s) (received s) (discarded s) (bad s) (uaf s) (npub s) (hpub s) (phc s) (ctc s).
-Definition set_pprev (v : N) (s : st) : st := mkSt (head s) (tail s) (open s) (slots s) (rw s) (sw s) (freed s) (rnotif s) (snotif s) (rwakes s) (swakes s) (ppc s) (ph s) (pt s) v (pitems s) (pcode s) (pout s) (pwas s) (pparked s) (cpc s) (ch s) (ct s) (cprev s) (cwant s) (ccode s) (cgot s) (cwas s) (cparked s) (pushed s) (received s) (discarded s) (bad s) (uaf s) (npub s) (hpub s) (phc s) (ctc s).
-Definition set_pitems (v : list N) (s : st) : st := mkSt (head s) (tail s) (open s) (slots s) (rw s) (sw s) (freed s) (rnotif s) (snotif s) (rwakes s) (swakes s) (ppc s) (ph s) (pt s) (pprev s) v (pcode s) (pout s) (pwas s) (pparked s) (cpc s) (ch s) (ct s) (cprev s) (cwant s) (ccode s) (cgot s) (cwas s) (cparked s) (pushed s) (received s) (discarded s) (bad s) (uaf s) (npub s) (hpub s) (phc s) (ctc s).
-Definition set_pcode (v : N) (s : st) : st := mkSt (head s) (tail s) (open s) (slots s) (rw s) (sw s) (freed s) (rnotif s) (snotif s) (rwakes s) (swakes s) (ppc s) (ph s) (pt s) (pprev s) (pitems s) v (pout s) (pwas s) (pparked s) (cpc s) (ch s) (ct s) (cprev s) (cwant s) (ccode s) (cgot s) (cwas s) (cparked s) (pushed s) (received s) (discarded s) (bad s) (uaf s) (npub s) (hpub s) (phc s) (ctc s).
-Definition set_pout (v : list N) (s : st) : st := mkSt (head s) (tail s) (open s) (slots s) (rw s) (sw s) (freed s) (rnotif s) (snotif s) (rwakes s) (swakes s) (ppc s) (ph s) (pt s) (pprev s) (pitems s) (pcode s) v (pwas s) (pparked s) (cpc s) (ch s) (ct s) (cprev s) (cwant s) (ccode s) (cgot s) (cwas s) (cparked s) (pushed s) (received s) (discarded s) (bad s) (uaf s) (npub s) (hpub s) (phc s) (ctc s).
-Definition set_pwas (v : bool) (s : st) : st := mkSt (head s) (tail s) (open s) (slots s) (rw s) (sw s) (freed s) (rnotif s) (snotif s) (rwakes s) (swakes s) (ppc s) (ph s) (pt s) (pprev s) (pitems s) (pcode s) (pout s) v (pparked s) (cpc s) (ch s) (ct s) (cprev s) (cwant s) (ccode s) (cgot s) (cwas s) (cparked s) (pushed s) (received s) (discarded s) (bad s) (uaf s) (npub s) (hpub s) (phc s) (ctc s).
-Definition set_pparked (v : bool) (s : st) : st := mkSt (head s) (tail s) (open s) (slots s) (rw s) (sw s) (freed s) (rnotif s) (snotif s) (rwakes s) (swakes s) (ppc s) (ph s) (pt s) (pprev s) (pitems s) (pcode s) (pout s) (pwas s) v (cpc s) (ch s) (ct s) (cprev s) (cwant s) (ccode s) (cgot s) (cwas s) (cparked s) (pushed s) (received s) (discarded s) (bad s) (uaf s) (npub s) (hpub s) (phc s) (ctc s).
-Definition set_cpc (v : pc) (s : st) : st := mkSt (head s) (tail s) (open s) (slots s) (rw s) (sw s) (freed s) (rnotif s) (snotif s) (rwakes s) (swakes s) (ppc s) (ph s) (pt s) (pprev s) (pitems s) (pcode s) (pout s) (pwas s) (pparked s) v (ch s) (ct s) (cprev s) (cwant s) (ccode s) (cgot s) (cwas s) (cparked s) (pushed s) (received s) (discarded s) (bad s) (uaf s) (npub s) (hpub s) (phc s) (ctc s).
-Definition set_ch (v : N) (s : st) : st := mkSt (head s) (tail s) (open s) (slots s) (rw s) (sw s) (freed s) (rnotif s) (snotif s) (rwakes s) (swakes s) (ppc s) (ph s) (pt s) (pprev s) (pitems s) (pcode s) (pout s) (pwas s) (pparked s) (cpc s) v (ct s) (cprev s) (cwant s) (ccode s) (cgot s) (cwas s) (cparked s) (pushed s) (received s) (discarded s) (bad s) (uaf s) (npub s) (hpub s) (phc s) (ctc s).
-Definition set_ct (v : N) (s : st) : st := mkSt (head s) (tail s) (open s) (slots s) (rw s) (sw s) (freed s) (rnotif s) (snotif s) (rwakes s) (swakes s) (ppc s) (ph s) (pt s) (pprev s) (pitems s) (pcode s) (pout s) (pwas s) (pparked s) (cpc s) (ch s) v (cprev s) (cwant s) (ccode s) (cgot s) (cwas s) (cparked s) (pushed s) (received s) (discarded s) (bad s) (uaf s) (npub s) (hpub s) (phc s) (ctc s).
-Definition set_cprev (v : N) (s : st) : st := mkSt (head s) (tail s) (open s) (slots s) (rw s) (sw s) (freed s) (rnotif s) (snotif s) (rwakes s) (swakes s) (ppc s) (ph s) (pt s) (pprev s) (pitems s) (pcode s) (pout s) (pwas s) (pparked s) (cpc s) (ch s) (ct s) v (cwant s) (ccode s) (cgot s) (cwas s) (cparked s) (pushed s) (received s) (discarded s) (bad s) (uaf s) (npub s) (hpub s) (phc s) (ctc s).
-Definition set_cwant (v : N) (s : st) : st := mkSt (head s) (tail s) (open s) (slots s) (rw s) (sw s) (freed s) (rnotif s) (snotif s) (rwakes s) (swakes s) (ppc s) (ph s) (pt s) (pprev s) (pitems s) (pcode s) (pout s) (pwas s) (pparked s) (cpc s) (ch s) (ct s) (cprev s) v (ccode s) (cgot s) (cwas s) (cparked s) (pushed s) (received s) (discarded s) (bad s) (uaf s) (npub s) (hpub s) (phc s) (ctc s).
-Definition set_ccode (v : N) (s : st) : st := mkSt (head s) (tail s) (open s) (slots s) (rw s) (sw s) (freed s) (rnotif s) (snotif s) (rwakes s) (swakes s) (ppc s) (ph s) (pt s) (pprev s) (pitems s) (pcode s) (pout s) (pwas s) (pparked s) (cpc s) (ch s) (ct s) (cprev s) (cwant s) v (cgot s) (cwas s) (cparked s) (pushed s) (received s) (discarded s) (bad s) (uaf s) (npub s) (hpub s) (phc s) (ctc s).
-Definition set_cgot (v : list N) (s : st) : st := mkSt (head s) (tail s) (open s) (slots s) (rw s) (sw s) (freed s) (rnotif s) (snotif s) (rwakes s) (swakes s) (ppc s) (ph s) (pt s) (pprev s) (pitems s) (pcode s) (pout s) (pwas s) (pparked s) (cpc s) (ch s) (ct s) (cprev s) (cwant s) (ccode s) v (cwas s) (cparked s) (pushed s) (received s) (discarded s) (bad s) (uaf s) (npub s) (hpub s) (phc s) (ctc s).
-Definition set_cwas (v : bool) (s : st) : st := mkSt (head s) (tail s) (open s) (slots s) (rw s) (sw s) (freed s) (rnotif s) (snotif s) (rwakes s) (swakes s) (ppc s) (ph s) (pt s) (pprev s) (pitems s) (pcode s) (pout s) (pwas s) (pparked s) (cpc s) (ch s) (ct s) (cprev s) (cwant s) (ccode s) (cgot s) v (cparked s) (pushed s) (received s) (discarded s) (bad s) (uaf s) (npub s) (hpub s) (phc s) (ctc s).
-Definition set_cparked (v : bool) (s : st) : st := mkSt (head s) (tail s) (open s) (slots s) (rw s) (sw s) (freed s) (rnotif s) (snotif s) (rwakes s) (swakes s) (ppc s) (ph s) (pt s) (pprev s) (pitems s) (pcode s) (pout s) (pwas s) (pparked s) (cpc s) (ch s) (ct s) (cprev s) (cwant s) (ccode s) (cgot s) (cwas s) v (pushed s) (received s) (discarded s) (bad s) (uaf s) (npub s) (hpub s) (phc s) (ctc s).
-Definition set_pushed (v : list N) (s : st) : st := mkSt (head s) (tail s) (open s) (slots s) (rw s) (sw s) (freed s) (rnotif s) (snotif s) (rwakes s) (swakes s) (ppc s) (ph s) (pt s) (pprev s) (pitems s) (pcode s) (pout s) (pwas s) (pparked s) (cpc s) (ch s) (ct s) (cprev s) (cwant s) (ccode s) (cgot s) (cwas s) (cparked s) v (received s) (discarded s) (bad s) (uaf s) (npub s) (hpub s) (phc s) (ctc s).
-Definition set_received (v : list N) (s : st) : st := mkSt (head s) (tail s) (open s) (slots s) (rw s) (sw s) (freed s) (rnotif s) (snotif s) (rwakes s) (swakes s) (ppc s) (ph s) (pt s) (pprev s) (pitems s) (pcode s) (pout s) (pwas s) (pparked s) (cpc s) (ch s) (ct s) (cprev s) (cwant s) (ccode s) (cgot s) (cwas s) (cparked s) (pushed s) v (discarded s) (bad s) (uaf s) (npub s) (hpub s) (phc s) (ctc s).
-Definition set_discarded (v : list N) (s : st) : st := mkSt (head s) (tail s) (open s) (slots s) (rw s) (sw s) (freed s) (rnotif s) (snotif s) (rwakes s) (swakes s) (ppc s) (ph s) (pt s) (pprev s) (pitems s) (pcode s) (pout s) (pwas s) (pparked s) (cpc s) (ch s) (ct s) (cprev s) (cwant s) (ccode s) (cgot s) (cwas s) (cparked s) (pushed s) (received s) v (bad s) (uaf s) (npub s) (hpub s) (phc s) (ctc s).
-Definition set_bad (v : bool) (s : st) : st := mkSt (head s) (tail s) (open s) (slots s) (rw s) (sw s) (freed s) (rnotif s) (snotif s) (rwakes s) (swakes s) (ppc s) (ph s) (pt s) (pprev s) (pitems s) (pcode s) (pout s) (pwas s) (pparked s) (cpc s) (ch s) (ct s) (cprev s) (cwant s) (ccode s) (cgot s) (cwas s) (cparked s) (pushed s) (received s) (discarded s) v (uaf s) (npub s) (hpub s) (phc s) (ctc s).
-Definition set_uaf (v : bool) (s : st) : st := mkSt (head s) (tail s) (open s) (slots s) (rw s) (sw s) (freed s) (rnotif s) (snotif s) (rwakes s) (swakes s) (ppc s) (ph s) (pt s) (pprev s) (pitems s) (pcode s) (pout s) (pwas s) (pparked s) (cpc s) (ch s) (ct s) (cprev s) (cwant s) (ccode s) (cgot s) (cwas s) (cparked s) (pushed s) (received s) (discarded s) (bad s) v (npub s) (hpub s) (phc s) (ctc s).
-Definition set_npub (v : N) (s : st) : st := mkSt (head s) (tail s) (open s) (slots s) (rw s) (sw s) (freed s) (rnotif s) (snotif s) (rwakes s) (swakes s) (ppc s) (ph s) (pt s) (pprev s) (pitems s) (pcode s) (pout s) (pwas s) (pparked s) (cpc s) (ch s) (ct s) (cprev s) (cwant s) (ccode s) (cgot s) (cwas s) (cparked s) (pushed s) (received s) (discarded s) (bad s) (uaf s) v (hpub s) (phc s) (ctc s).
-Definition set_hpub (v : N) (s : st) : st := mkSt (head s) (tail s) (open s) (slots s) (rw s) (sw s) (freed s) (rnotif s) (snotif s) (rwakes s) (swakes s) (ppc s) (ph s) (pt s) (pprev s) (pitems s) (pcode s) (pout s) (pwas s) (pparked s) (cpc s) (ch s) (ct s) (cprev s) (cwant s) (ccode s) (cgot s) (cwas s) (cparked s) (pushed s) (received s) (discarded s) (bad s) (uaf s) (npub s) v (phc s) (ctc s).
-Definition set_phc (v : N) (s : st) : st := mkSt (head s) (tail s) (open s) (slots s) (rw s) (sw s) (freed s) (rnotif s) (snotif s) (rwakes s) (swakes s) (ppc s) (ph s) (pt s) (pprev s) (pitems s) (pcode s) (pout s) (pwas s) (pparked s) (cpc s) (ch s) (ct s) (cprev s) (cwant s) (ccode s) (cgot s) (cwas s) (cparked s) (pushed s) (received s) (discarded s) (bad s) (uaf s) (npub s) (hpub s) v (ctc s).
-Definition set_ctc (v : N) (s : st) : st := mkSt (head s) (tail s) (open s) (slots s) (rw s) (sw s) (freed s) (rnotif s) (snotif s) (rwakes s) (swakes s) (ppc s) (ph s) (pt s) (pprev s) (pitems s) (pcode s) (pout s) (pwas s) (pparked s) (cpc s) (ch s) (ct s) (cprev s) (cwant s) (ccode s) (cgot s) (cwas s) (cparked s) (pushed s) (received s) (discarded s) (bad s) (uaf s) (npub s) (hpub s) (phc s) v.
-Ltac unfold_setters := cbn [set_head set_tail set_open set_slots set_rw set_sw set_freed set_rnotif set_snotif set_rwakes set_swakes set_ppc set_ph set_pt set_pprev set_pitems set_pcode set_pout set_pwas set_pparked set_cpc set_ch set_ct set_cprev set_cwant set_ccode set_cgot set_cwas set_cparked set_pushed set_received set_discarded set_bad set_uaf set_npub set_hpub set_phc set_ctc head tail open slots rw sw freed rnotif snotif rwakes swakes ppc ph pt pprev pitems pcode pout pwas pparked cpc ch ct cprev cwant ccode cgot cwas cparked pushed received discarded bad uaf npub hpub phc ctc] in *.
+Definition set_head (v : N) (s : st) : st := mkSt v (tail s) (open s) (slots s) (rw s) (sw s) (freed s) (released s) (rnotif s) (snotif s) (rwakes s) (swakes s) (ppc s) (ph s) (pt s) (pprev s) (pitems s) (pcode s) (pout s) (pwas s) (pparked s) (cpc s) (ch s) (ct s) (cprev s) (cwant s) (ccode s) (cgot s) (cwas s) (cparked s) (pushed s) (received s) (discarded s) (bad s) (uaf s) (npub s) (hpub s) (phc s) (ctc s).
+Definition set_tail (v : N) (s : st) : st := mkSt (head s) v (open s) (slots s) (rw s) (sw s) (freed s) (released s) (rnotif s) (snotif s) (rwakes s) (swakes s) (ppc s) (ph s) (pt s) (pprev s) (pitems s) (pcode s) (pout s) (pwas s) (pparked s) (cpc s) (ch s) (ct s) (cprev s) (cwant s) (ccode s) (cgot s) (cwas s) (cparked s) (pushed s) (received s) (discarded s) (bad s) (uaf s) (npub s) (hpub s) (phc s) (ctc s).
+Definition set_open (v : bool) (s : st) : st := mkSt (head s) (tail s) v (slots s) (rw s) (sw s) (freed s) (released s) (rnotif s) (snotif s) (rwakes s) (swakes s) (ppc s) (ph s) (pt s) (pprev s) (pitems s) (pcode s) (pout s) (pwas s) (pparked s) (cpc s) (ch s) (ct s) (cprev s) (cwant s) (ccode s) (cgot s) (cwas s) (cparked s) (pushed s) (received s) (discarded s) (bad s) (uaf s) (npub s) (hpub s) (phc s) (ctc s).
+Definition set_slots (v : list (option N)) (s : st) : st := mkSt (head s) (tail s) (open s) v (rw s) (sw s) (freed s) (released s) (rnotif s) (snotif s) (rwakes s) (swakes s) (ppc s) (ph s) (pt s) (pprev s) (pitems s) (pcode s) (pout s) (pwas s) (pparked s) (cpc s) (ch s) (ct s) (cprev s) (cwant s) (ccode s) (cgot s) (cwas s) (cparked s) (pushed s) (received s) (discarded s) (bad s) (uaf s) (npub s) (hpub s) (phc s) (ctc s).
+Definition set_rw (v : waker) (s : st) : st := mkSt (head s) (tail s) (open s) (slots s) v (sw s) (freed s) (released s) (rnotif s) (snotif s) (rwakes s) (swakes s) (ppc s) (ph s) (pt s) (pprev s) (pitems s) (pcode s) (pout s) (pwas s) (pparked s) (cpc s) (ch s) (ct s) (cprev s) (cwant s) (ccode s) (cgot s) (cwas s) (cparked s) (pushed s) (received s) (discarded s) (bad s) (uaf s) (npub s) (hpub s) (phc s) (ctc s).
+Definition set_sw (v : waker) (s : st) : st := mkSt (head s) (tail s) (open s) (slots s) (rw s) v (freed s) (released s) (rnotif s) (snotif s) (rwakes s) (swakes s) (ppc s) (ph s) (pt s) (pprev s) (pitems s) (pcode s) (pout s) (pwas s) (pparked s) (cpc s) (ch s) (ct s) (cprev s) (cwant s) (ccode s) (cgot s) (cwas s) (cparked s) (pushed s) (received s) (discarded s) (bad s) (uaf s) (npub s) (hpub s) (phc s) (ctc s).
+Definition set_freed (v : bool) (s : st) : st := mkSt (head s) (tail s) (open s) (slots s) (rw s) (sw s) v (released s) (rnotif s) (snotif s) (rwakes s) (swakes s) (ppc s) (ph s) (pt s) (pprev s) (pitems s) (pcode s) (pout s) (pwas s) (pparked s) (cpc s) (ch s) (ct s) (cprev s) (cwant s) (ccode s) (cgot s) (cwas s) (cparked s) (pushed s) (received s) (discarded s) (bad s) (uaf s) (npub s) (hpub s) (phc s) (ctc s).
+Definition set_released (v : bool) (s : st) : st := mkSt (head s) (tail s) (open s) (slots s) (rw s) (sw s) (freed s) v (rnotif s) (snotif s) (rwakes s) (swakes s) (ppc s) (ph s) (pt s) (pprev s) (pitems s) (pcode s) (pout s) (pwas s) (pparked s) (cpc s) (ch s) (ct s) (cprev s) (cwant s) (ccode s) (cgot s) (cwas s) (cparked s) (pushed s) (received s) (discarded s) (bad s) (uaf s) (npub s) (hpub s) (phc s) (ctc s).
+Definition set_rnotif (v : bool) (s : st) : st := mkSt (head s) (tail s) (open s) (slots s) (rw s) (sw s) (freed s) (released s) v (snotif s) (rwakes s) (swakes s) (ppc s) (ph s) (pt s) (pprev s) (pitems s) (pcode s) (pout s) (pwas s) (pparked s) (cpc s) (ch s) (ct s) (cprev s) (cwant s) (ccode s) (cgot s) (cwas s) (cparked s) (pushed s) (received s) (discarded s) (bad s) (uaf s) (npub s) (hpub s) (phc s) (ctc s).
+Definition set_snotif (v : bool) (s : st) : st := mkSt (head s) (tail s) (open s) (slots s) (rw s) (sw s) (freed s) (released s) (rnotif s) v (rwakes s) (swakes s) (ppc s) (ph s) (pt s) (pprev s) (pitems s) (pcode s) (pout s) (pwas s) (pparked s) (cpc s) (ch s) (ct s) (cprev s) (cwant s) (ccode s) (cgot s) (cwas s) (cparked s) (pushed s) (received s) (discarded s) (bad s) (uaf s) (npub s) (hpub s) (phc s) (ctc s).
+Definition set_rwakes (v : N) (s : st) : st := mkSt (head s) (tail s) (open s) (slots s) (rw s) (sw s) (freed s) (released s) (rnotif s) (snotif s) v (swakes s) (ppc s) (ph s) (pt s) (pprev s) (pitems s) (pcode s) (pout s) (pwas s) (pparked s) (cpc s) (ch s) (ct s) (cprev s) (cwant s) (ccode s) (cgot s) (cwas s) (cparked s) (pushed s) (received s) (discarded s) (bad s) (uaf s) (npub s) (hpub s) (phc s) (ctc s).
+Definition set_swakes (v : N) (s : st) : st := mkSt (head s) (tail s) (open s) (slots s) (rw s) (sw s) (freed s) (released s) (rnotif s) (snotif s) (rwakes s) v (ppc s) (ph s) (pt s) (pprev s) (pitems s) (pcode s) (pout s) (pwas s) (pparked s) (cpc s) (ch s) (ct s) (cprev s) (cwant s) (ccode s) (cgot s) (cwas s) (cparked s) (pushed s) (received s) (discarded s) (bad s) (uaf s) (npub s) (hpub s) (phc s) (ctc s).
+Definition set_ppc (v : pc) (s : st) : st := mkSt (head s) (tail s) (open s) (slots s) (rw s) (sw s) (freed s) (released s) (rnotif s) (snotif s) (rwakes s) (swakes s) v (ph s) (pt s) (pprev s) (pitems s) (pcode s) (pout s) (pwas s) (pparked s) (cpc s) (ch s) (ct s) (cprev s) (cwant s) (ccode s) (cgot s) (cwas s) (cparked s) (pushed s) (received s) (discarded s) (bad s) (uaf s) (npub s) (hpub s) (phc s) (ctc s).
+Definition set_ph (v : N) (s : st) : st := mkSt (head s) (tail s) (open s) (slots s) (rw s) (sw s) (freed s) (released s) (rnotif s) (snotif s) (rwakes s) (swakes s) (ppc s) v (pt s) (pprev s) (pitems s) (pcode s) (pout s) (pwas s) (pparked s) (cpc s) (ch s) (ct s) (cprev s) (cwant s) (ccode s) (cgot s) (cwas s) (cparked s) (pushed s) (received s) (discarded s) (bad s) (uaf s) (npub s) (hpub s) (phc s) (ctc s).
+Definition set_pt (v : N) (s : st) : st := mkSt (head s) (tail s) (open s) (slots s) (rw s) (sw s) (freed s) (released s) (rnotif s) (snotif s) (rwakes s) (swakes s) (ppc s) (ph s) v (pprev s) (pitems s) (pcode s) (pout s) (pwas s) (pparked s) (cpc s) (ch s) (ct s) (cprev s) (cwant s) (ccode s) (cgot s) (cwas s) (cparked s) (pushed s) (received s) (discarded s) (bad s) (uaf s) (npub s) (hpub s) (phc s) (ctc s).
+Definition set_pprev (v : N) (s : st) : st := mkSt (head s) (tail s) (open s) (slots s) (rw s) (sw s) (freed s) (released s) (rnotif s) (snotif s) (rwakes s) (swakes s) (ppc s) (ph s) (pt s) v (pitems s) (pcode s) (pout s) (pwas s) (pparked s) (cpc s) (ch s) (ct s) (cprev s) (cwant s) (ccode s) (cgot s) (cwas s) (cparked s) (pushed s) (received s) (discarded s) (bad s) (uaf s) (npub s) (hpub s) (phc s) (ctc s).
+Definition set_pitems (v : list N) (s : st) : st := mkSt (head s) (tail s) (open s) (slots s) (rw s) (sw s) (freed s) (released s) (rnotif s) (snotif s) (rwakes s) (swakes s) (ppc s) (ph s) (pt s) (pprev s) v (pcode s) (pout s) (pwas s) (pparked s) (cpc s) (ch s) (ct s) (cprev s) (cwant s) (ccode s) (cgot s) (cwas s) (cparked s) (pushed s) (received s) (discarded s) (bad s) (uaf s) (npub s) (hpub s) (phc s) (ctc s).
+Definition set_pcode (v : N) (s : st) : st := mkSt (head s) (tail s) (open s) (slots s) (rw s) (sw s) (freed s) (released s) (rnotif s) (snotif s) (rwakes s) (swakes s) (ppc s) (ph s) (pt s) (pprev s) (pitems s) v (pout s) (pwas s) (pparked s) (cpc s) (ch s) (ct s) (cprev s) (cwant s) (ccode s) (cgot s) (cwas s) (cparked s) (pushed s) (received s) (discarded s) (bad s) (uaf s) (npub s) (hpub s) (phc s) (ctc s).
+Definition set_pout (v : list N) (s : st) : st := mkSt (head s) (tail s) (open s) (slots s) (rw s) (sw s) (freed s) (released s) (rnotif s) (snotif s) (rwakes s) (swakes s) (ppc s) (ph s) (pt s) (pprev s) (pitems s) (pcode s) v (pwas s) (pparked s) (cpc s) (ch s) (ct s) (cprev s) (cwant s) (ccode s) (cgot s) (cwas s) (cparked s) (pushed s) (received s) (discarded s) (bad s) (uaf s) (npub s) (hpub s) (phc s) (ctc s).
+Definition set_pwas (v : bool) (s : st) : st := mkSt (head s) (tail s) (open s) (slots s) (rw s) (sw s) (freed s) (released s) (rnotif s) (snotif s) (rwakes s) (swakes s) (ppc s) (ph s) (pt s) (pprev s) (pitems s) (pcode s) (pout s) v (pparked s) (cpc s) (ch s) (ct s) (cprev s) (cwant s) (ccode s) (cgot s) (cwas s) (cparked s) (pushed s) (received s) (discarded s) (bad s) (uaf s) (npub s) (hpub s) (phc s) (ctc s).
+Definition set_pparked (v : bool) (s : st) : st := mkSt (head s) (tail s) (open s) (slots s) (rw s) (sw s) (freed s) (released s) (rnotif s) (snotif s) (rwakes s) (swakes s) (ppc s) (ph s) (pt s) (pprev s) (pitems s) (pcode s) (pout s) (pwas s) v (cpc s) (ch s) (ct s) (cprev s) (cwant s) (ccode s) (cgot s) (cwas s) (cparked s) (pushed s) (received s) (discarded s) (bad s) (uaf s) (npub s) (hpub s) (phc s) (ctc s).
+Definition set_cpc (v : pc) (s : st) : st := mkSt (head s) (tail s) (open s) (slots s) (rw s) (sw s) (freed s) (released s) (rnotif s) (snotif s) (rwakes s) (swakes s) (ppc s) (ph s) (pt s) (pprev s) (pitems s) (pcode s) (pout s) (pwas s) (pparked s) v (ch s) (ct s) (cprev s) (cwant s) (ccode s) (cgot s) (cwas s) (cparked s) (pushed s) (received s) (discarded s) (bad s) (uaf s) (npub s) (hpub s) (phc s) (ctc s).
+Definition set_ch (v : N) (s : st) : st := mkSt (head s) (tail s) (open s) (slots s) (rw s) (sw s) (freed s) (released s) (rnotif s) (snotif s) (rwakes s) (swakes s) (ppc s) (ph s) (pt s) (pprev s) (pitems s) (pcode s) (pout s) (pwas s) (pparked s) (cpc s) v (ct s) (cprev s) (cwant s) (ccode s) (cgot s) (cwas s) (cparked s) (pushed s) (received s) (discarded s) (bad s) (uaf s) (npub s) (hpub s) (phc s) (ctc s).
+Definition set_ct (v : N) (s : st) : st := mkSt (head s) (tail s) (open s) (slots s) (rw s) (sw s) (freed s) (released s) (rnotif s) (snotif s) (rwakes s) (swakes s) (ppc s) (ph s) (pt s) (pprev s) (pitems s) (pcode s) (pout s) (pwas s) (pparked s) (cpc s) (ch s) v (cprev s) (cwant s) (ccode s) (cgot s) (cwas s) (cparked s) (pushed s) (received s) (discarded s) (bad s) (uaf s) (npub s) (hpub s) (phc s) (ctc s).
+Definition set_cprev (v : N) (s : st) : st := mkSt (head s) (tail s) (open s) (slots s) (rw s) (sw s) (freed s) (released s) (rnotif s) (snotif s) (rwakes s) (swakes s) (ppc s) (ph s) (pt s) (pprev s) (pitems s) (pcode s) (pout s) (pwas s) (pparked s) (cpc s) (ch s) (ct s) v (cwant s) (ccode s) (cgot s) (cwas s) (cparked s) (pushed s) (received s) (discarded s) (bad s) (uaf s) (npub s) (hpub s) (phc s) (ctc s).
+Definition set_cwant (v : N) (s : st) : st := mkSt (head s) (tail s) (open s) (slots s) (rw s) (sw s) (freed s) (released s) (rnotif s) (snotif s) (rwakes s) (swakes s) (ppc s) (ph s) (pt s) (pprev s) (pitems s) (pcode s) (pout s) (pwas s) (pparked s) (cpc s) (ch s) (ct s) (cprev s) v (ccode s) (cgot s) (cwas s) (cparked s) (pushed s) (received s) (discarded s) (bad s) (uaf s) (npub s) (hpub s) (phc s) (ctc s).
+Definition set_ccode (v : N) (s : st) : st := mkSt (head s) (tail s) (open s) (slots s) (rw s) (sw s) (freed s) (released s) (rnotif s) (snotif s) (rwakes s) (swakes s) (ppc s) (ph s) (pt s) (pprev s) (pitems s) (pcode s) (pout s) (pwas s) (pparked s) (cpc s) (ch s) (ct s) (cprev s) (cwant s) v (cgot s) (cwas s) (cparked s) (pushed s) (received s) (discarded s) (bad s) (uaf s) (npub s) (hpub s) (phc s) (ctc s).
+Definition set_cgot (v : list N) (s : st) : st := mkSt (head s) (tail s) (open s) (slots s) (rw s) (sw s) (freed s) (released s) (rnotif s) (snotif s) (rwakes s) (swakes s) (ppc s) (ph s) (pt s) (pprev s) (pitems s) (pcode s) (pout s) (pwas s) (pparked s) (cpc s) (ch s) (ct s) (cprev s) (cwant s) (ccode s) v (cwas s) (cparked s) (pushed s) (received s) (discarded s) (bad s) (uaf s) (npub s) (hpub s) (phc s) (ctc s).
+Definition set_cwas (v : bool) (s : st) : st := mkSt (head s) (tail s) (open s) (slots s) (rw s) (sw s) (freed s) (released s) (rnotif s) (snotif s) (rwakes s) (swakes s) (ppc s) (ph s) (pt s) (pprev s) (pitems s) (pcode s) (pout s) (pwas s) (pparked s) (cpc s) (ch s) (ct s) (cprev s) (cwant s) (ccode s) (cgot s) v (cparked s) (pushed s) (received s) (discarded s) (bad s) (uaf s) (npub s) (hpub s) (phc s) (ctc s).
+Definition set_cparked (v : bool) (s : st) : st := mkSt (head s) (tail s) (open s) (slots s) (rw s) (sw s) (freed s) (released s) (rnotif s) (snotif s) (rwakes s) (swakes s) (ppc s) (ph s) (pt s) (pprev s) (pitems s) (pcode s) (pout s) (pwas s) (pparked s) (cpc s) (ch s) (ct s) (cprev s) (cwant s) (ccode s) (cgot s) (cwas s) v (pushed s) (received s) (discarded s) (bad s) (uaf s) (npub s) (hpub s) (phc s) (ctc s).
+Definition set_pushed (v : list N) (s : st) : st := mkSt (head s) (tail s) (open s) (slots s) (rw s) (sw s) (freed s) (released s) (rnotif s) (snotif s) (rwakes s) (swakes s) (ppc s) (ph s) (pt s) (pprev s) (pitems s) (pcode s) (pout s) (pwas s) (pparked s) (cpc s) (ch s) (ct s) (cprev s) (cwant s) (ccode s) (cgot s) (cwas s) (cparked s) v (received s) (discarded s) (bad s) (uaf s) (npub s) (hpub s) (phc s) (ctc s).
+Definition set_received (v : list N) (s : st) : st := mkSt (head s) (tail s) (open s) (slots s) (rw s) (sw s) (freed s) (released s) (rnotif s) (snotif s) (rwakes s) (swakes s) (ppc s) (ph s) (pt s) (pprev s) (pitems s) (pcode s) (pout s) (pwas s) (pparked s) (cpc s) (ch s) (ct s) (cprev s) (cwant s) (ccode s) (cgot s) (cwas s) (cparked s) (pushed s) v (discarded s) (bad s) (uaf s) (npub s) (hpub s) (phc s) (ctc s).
+Definition set_discarded (v : list N) (s : st) : st := mkSt (head s) (tail s) (open s) (slots s) (rw s) (sw s) (freed s) (released s) (rnotif s) (snotif s) (rwakes s) (swakes s) (ppc s) (ph s) (pt s) (pprev s) (pitems s) (pcode s) (pout s) (pwas s) (pparked s) (cpc s) (ch s) (ct s) (cprev s) (cwant s) (ccode s) (cgot s) (cwas s) (cparked s) (pushed s) (received s) v (bad s) (uaf s) (npub s) (hpub s) (phc s) (ctc s).
+Definition set_bad (v : bool) (s : st) : st := mkSt (head s) (tail s) (open s) (slots s) (rw s) (sw s) (freed s) (released s) (rnotif s) (snotif s) (rwakes s) (swakes s) (ppc s) (ph s) (pt s) (pprev s) (pitems s) (pcode s) (pout s) (pwas s) (pparked s) (cpc s) (ch s) (ct s) (cprev s) (cwant s) (ccode s) (cgot s) (cwas s) (cparked s) (pushed s) (received s) (discarded s) v (uaf s) (npub s) (hpub s) (phc s) (ctc s).
+Definition set_uaf (v : bool) (s : st) : st := mkSt (head s) (tail s) (open s) (slots s) (rw s) (sw s) (freed s) (released s) (rnotif s) (snotif s) (rwakes s) (swakes s) (ppc s) (ph s) (pt s) (pprev s) (pitems s) (pcode s) (pout s) (pwas s) (pparked s) (cpc s) (ch s) (ct s) (cprev s) (cwant s) (ccode s) (cgot s) (cwas s) (cparked s) (pushed s) (received s) (discarded s) (bad s) v (npub s) (hpub s) (phc s) (ctc s).
+Definition set_npub (v : N) (s : st) : st := mkSt (head s) (tail s) (open s) (slots s) (rw s) (sw s) (freed s) (released s) (rnotif s) (snotif s) (rwakes s) (swakes s) (ppc s) (ph s) (pt s) (pprev s) (pitems s) (pcode s) (pout s) (pwas s) (pparked s) (cpc s) (ch s) (ct s) (cprev s) (cwant s) (ccode s) (cgot s) (cwas s) (cparked s) (pushed s) (received s) (discarded s) (bad s) (uaf s) v (hpub s) (phc s) (ctc s).
+Definition set_hpub (v : N) (s : st) : st := mkSt (head s) (tail s) (open s) (slots s) (rw s) (sw s) (freed s) (released s) (rnotif s) (snotif s) (rwakes s) (swakes s) (ppc s) (ph s) (pt s) (pprev s) (pitems s) (pcode s) (pout s) (pwas s) (pparked s) (cpc s) (ch s) (ct s) (cprev s) (cwant s) (ccode s) (cgot s) (cwas s) (cparked s) (pushed s) (received s) (discarded s) (bad s) (uaf s) (npub s) v (phc s) (ctc s).
+Definition set_phc (v : N) (s : st) : st := mkSt (head s) (tail s) (open s) (slots s) (rw s) (sw s) (freed s) (released s) (rnotif s) (snotif s) (rwakes s) (swakes s) (ppc s) (ph s) (pt s) (pprev s) (pitems s) (pcode s) (pout s) (pwas s) (pparked s) (cpc s) (ch s) (ct s) (cprev s) (cwant s) (ccode s) (cgot s) (cwas s) (cparked s) (pushed s) (received s) (discarded s) (bad s) (uaf s) (npub s) (hpub s) v (ctc s).
+Definition set_ctc (v : N) (s : st) : st := mkSt (head s) (tail s) (open s) (slots s) (rw s) (sw s) (freed s) (released s) (rnotif s) (snotif s) (rwakes s) (swakes s) (ppc s) (ph s) (pt s) (pprev s) (pitems s) (pcode s) (pout s) (pwas s) (pparked s) (cpc s) (ch s) (ct s) (cprev s) (cwant s) (ccode s) (cgot s) (cwas s) (cparked s) (pushed s) (received s) (discarded s) (bad s) (uaf s) (npub s) (hpub s) (phc s) v.
+Ltac unfold_setters := cbn [set_head set_tail set_open set_slots set_rw set_sw set_freed set_released set_rnotif set_snotif set_rwakes set_swakes set_ppc set_ph set_pt set_pprev set_pitems set_pcode set_pout set_pwas set_pparked set_cpc set_ch set_ct set_cprev set_cwant set_ccode set_cgot set_cwas set_cparked set_pushed set_received set_discarded set_bad set_uaf set_npub set_hpub set_phc set_ctc head tail open slots rw sw freed released rnotif snotif rwakes swakes ppc ph pt pprev pitems pcode pout pwas pparked cpc ch ct cprev cwant ccode cgot cwas cparked pushed received discarded bad uaf npub hpub phc ctc] in *.
 
 Notation "s .> f" := (f s) (at level 45, left associativity, only parsing).
 
@@ -251,7 +254,7 @@ Definition p_acq_ret (q : qk) (r : ares) (s : st) : st :=
   | _, AClosed => s .> set_pcode 4 .> set_ppc Idle                     (* Err(ClosedError) *)
   end.
 
-Definition pstep (cap : N) (s0 : st) : st :=
+Definition pstep (fx : bool) (cap : N) (s0 : st) : st :=
   let s := s0 .> set_uaf (uaf s0 || (freed s0 && touches (ppc s0))) in
   match ppc s with
   | Idle | Done => s
@@ -298,18 +301,20 @@ Definition pstep (cap : N) (s0 : st) : st :=
           match k with
           | KPersist => s2 .> set_ppc Idle
           | KClose1 => s2 .> set_ppc Swap
-          | KClose2 => if pwas s then s2 .> set_ppc Done else s2 .> set_ppc Drop1
+          | KClose2 => if fx then s2 .> set_ppc Rel else if pwas s then s2 .> set_ppc Done else s2 .> set_ppc Drop1
           | KDropR => s2 .> set_ppc (Wk KDropS W1)
           | KDropS => s2 .> set_ppc Free
           end
       end
-  | Swap => s .> set_pwas (open s) .> set_open false .> set_ppc (Wk KClose2 W1)      (* open.swap(false, SeqCst) *)
+  | Swap => s .> set_pwas (if fx then pwas s else open s) .> set_open false .> set_ppc (Wk KClose2 W1)      (* open.swap(false, SeqCst) *)
   | Drop1 => s .> set_ph (head s) .> set_phc (hpub s) .> set_ppc Drop2
   | Drop2 => s .> set_pt (tail s) .> set_ppc Drop3
   | Drop3 =>
       let '(sl, acc, bd) := take_cells (N.to_nat (count (ph s) (pt s) cap)) (ph s) cap (slots s) (discarded s) (bad s) in
       s .> set_slots sl .> set_discarded acc .> set_bad bd .> set_ppc (Wk KDropR W1)
   | Free => s .> set_freed true .> set_ppc Done
+  (* repaired close: `let is_last = released.swap(true, SeqCst)`; was := not is_last *)
+  | Rel => s .> set_pwas (negb (released s)) .> set_released true .> set_ppc (if released s then Drop1 else Done)
   end.
 
 (* ---------------------------------------------------------------------------------------- *)
@@ -336,7 +341,7 @@ Definition c_acq_ret (q : qk) (r : ares) (s : st) : st :=
   | _, AClosed => s .> set_ccode 4 .> set_cpc Idle                     (* Err(ClosedError) *)
   end.
 
-Definition cstep (cap : N) (s0 : st) : st :=
+Definition cstep (fx : bool) (cap : N) (s0 : st) : st :=
   let s := s0 .> set_uaf (uaf s0 || (freed s0 && touches (cpc s0))) in
   match cpc s with
   | Idle | Done => s
@@ -383,25 +388,26 @@ Definition cstep (cap : N) (s0 : st) : st :=
           match k with
           | KPersist => s2 .> set_cpc Idle
           | KClose1 => s2 .> set_cpc Swap
-          | KClose2 => if cwas s then s2 .> set_cpc Done else s2 .> set_cpc Drop1
+          | KClose2 => if fx then s2 .> set_cpc Rel else if cwas s then s2 .> set_cpc Done else s2 .> set_cpc Drop1
           | KDropR => s2 .> set_cpc (Wk KDropS W1)
           | KDropS => s2 .> set_cpc Free
           end
       end
-  | Swap => s .> set_cwas (open s) .> set_open false .> set_cpc (Wk KClose2 W1)
+  | Swap => s .> set_cwas (if fx then cwas s else open s) .> set_open false .> set_cpc (Wk KClose2 W1)
   | Drop1 => s .> set_ch (head s) .> set_cpc Drop2
   | Drop2 => s .> set_ct (tail s) .> set_ctc (npub s) .> set_cpc Drop3
   | Drop3 =>
       let '(sl, acc, bd) := take_cells (N.to_nat (count (ch s) (ct s) cap)) (ch s) cap (slots s) (discarded s) (bad s) in
       s .> set_slots sl .> set_discarded acc .> set_bad bd .> set_cpc (Wk KDropR W1)
   | Free => s .> set_freed true .> set_cpc Done
+  | Rel => s .> set_cwas (negb (released s)) .> set_released true .> set_cpc (if released s then Drop1 else Done)
   end.
 
 (* ---------------------------------------------------------------------------------------- *)
 (* The system: interleaving product under an arbitrary schedule                              *)
 (* ---------------------------------------------------------------------------------------- *)
 Definition init (cap : N) : st :=
-  mkSt 0 0 true (repeat None (N.to_nat cap)) w_init w_init false
+  mkSt 0 0 true (repeat None (N.to_nat cap)) w_init w_init false false
        false false 0 0
        Idle 0 0 0 [] 0 [] true false
        Idle 0 0 0 0 0 [] true false
@@ -412,7 +418,7 @@ Record sys := mkSys { y_st : st; y_pp : list pop_t; y_cp : list cop_t }.
 
 (* thread choice: true = producer, false = consumer.  An idle thread starts its next operation
    (a local step); a thread that has dropped its side stays Done. *)
-Definition sys_step (cap : N) (y : sys) (t : bool) : sys :=
+Definition sys_step (fx : bool) (cap : N) (y : sys) (t : bool) : sys :=
   let s := y_st y in
   if t then
     match ppc s with
@@ -420,7 +426,7 @@ Definition sys_step (cap : N) (y : sys) (t : bool) : sys :=
               | [] => y
               | op :: r => mkSys (pbegin op s) r (y_cp y)
               end
-    | _ => mkSys (pstep cap s) (y_pp y) (y_cp y)
+    | _ => mkSys (pstep fx cap s) (y_pp y) (y_cp y)
     end
   else
     match cpc s with
@@ -428,21 +434,25 @@ Definition sys_step (cap : N) (y : sys) (t : bool) : sys :=
               | [] => y
               | op :: r => mkSys (cbegin op s) (y_pp y) r
               end
-    | _ => mkSys (cstep cap s) (y_pp y) (y_cp y)
+    | _ => mkSys (cstep fx cap s) (y_pp y) (y_cp y)
     end.
 
-Definition exec (cap : N) (sched : list bool) (pp : list pop_t) (cp : list cop_t) : sys :=
-  fold_left (sys_step cap) sched (mkSys (init cap) pp cp).
+Definition exec (fx : bool) (cap : N) (sched : list bool) (pp : list pop_t) (cp : list cop_t) : sys :=
+  fold_left (sys_step fx cap) sched (mkSys (init cap) pp cp).
 
 (* ---------------------------------------------------------------------------------------- *)
 (* Operation-granularity run for the correspondence harness                                  *)
 (* ---------------------------------------------------------------------------------------- *)
+(* which close the source has: 0 = the first side to swap `open` decides (current code),
+   1 = `released.swap(true)` at the end of close, last one out frees (candidate repair) *)
+Definition code_fixed : bool := Gen_C17.close_last_out_frees =? 1.
+
 Definition quiet (p : pc) : bool := match p with Idle | Done => true | _ => false end.
 
-Fixpoint p_run (fuel : nat) (cap : N) (s : st) : st :=
-  match fuel with O => s | S f => if quiet (ppc s) then s else p_run f cap (pstep cap s) end.
-Fixpoint c_run (fuel : nat) (cap : N) (s : st) : st :=
-  match fuel with O => s | S f => if quiet (cpc s) then s else c_run f cap (cstep cap s) end.
+Fixpoint p_run (fx : bool) (fuel : nat) (cap : N) (s : st) : st :=
+  match fuel with O => s | S f => if quiet (ppc s) then s else p_run fx f cap (pstep fx cap s) end.
+Fixpoint c_run (fx : bool) (fuel : nat) (cap : N) (s : st) : st :=
+  match fuel with O => s | S f => if quiet (cpc s) then s else c_run fx f cap (cstep fx cap s) end.
 
 Fixpoint seqN (start : N) (n : nat) : list N :=
   match n with O => [] | S k => start :: seqN (start + 1) k end.
@@ -480,7 +490,7 @@ Definition do_op (cap : N) (op arg : Z) (s : st) : st * list Z :=
                | 1%Z => OSPoll (seqN (1 + N.of_nat (length (pushed s))) (N.to_nat k))
                | _ => ODropS
                end in
-      let s' := p_run fuel cap (pbegin o s) in (s', out_p s')
+      let s' := p_run code_fixed fuel cap (pbegin o s) in (s', out_p s')
   | _ =>
       if is_done (cpc s) then (s, out_skip s) else
       let o := match op with
@@ -488,7 +498,7 @@ Definition do_op (cap : N) (op arg : Z) (s : st) : st * list Z :=
                | 3%Z => ORPoll k
                | _ => ODropR
                end in
-      let s' := c_run fuel cap (cbegin o s) in (s', out_c s')
+      let s' := c_run code_fixed fuel cap (cbegin o s) in (s', out_c s')
   end.
 
 Fixpoint run_ops (fuel : nat) (cap : N) (ops : list Z) (s : st) : st * list Z :=
@@ -508,8 +518,8 @@ Definition run (case : list Z) : list Z :=
   let cap := alloc_cap c in
   let '(s1, o1) := run_ops (S (length case)) cap (tl case) (init cap) in
   (* the harness finally drops the sender, then the receiver *)
-  let s2 := if is_done (ppc s1) then s1 else p_run 64 cap (pbegin ODropS s1) in
-  let s3 := if is_done (cpc s2) then s2 else c_run 64 cap (cbegin ODropR s2) in
+  let s2 := if is_done (ppc s1) then s1 else p_run code_fixed 64 cap (pbegin ODropS s1) in
+  let s3 := if is_done (cpc s2) then s2 else c_run code_fixed 64 cap (cbegin ODropR s2) in
   o1 ++ (-1)%Z :: Z.of_nat (length (discarded s3)) :: map Nz (discarded s3) ++ [Nz (rwakes s3); Nz (swakes s3)].
 
 (* ---------------------------------------------------------------------------------------- *)
